@@ -349,8 +349,10 @@ type Op struct {
 }
 
 const (
-	qTuple  = "SELECT a, ARRAY[1, 2] FROM t WHERE (x, y) IN ((1, 2)) AND b = 'v'"
-	qArr    = "SELECT arr[1], arr[1:2], COUNT(*) FROM t u JOIN s ON u.id = s.id WHERE c BETWEEN 1 AND 2"
+	// aliased pooled expressions and a derived table that is also the left side of the first JOIN:
+	// shapes whose release paths were shown to matter by the independently seeded changes seeded/C09, seeded/C10
+	qTuple  = "SELECT a, ARRAY[1, 2] AS ar, (p, q) AS tp FROM t WHERE (x, y) IN ((1, 2)) AND b = 'v'"
+	qArr    = "SELECT arr[1] AS e1, arr[1:2] AS sl, COUNT(*) FROM (SELECT id, arr FROM t) u JOIN s ON u.id = s.id WHERE c BETWEEN 1 AND 2"
 	qBad    = "SELECT FROM WHERE"
 	qTypo   = "SELCT a FROM t"
 	qInsert = "INSERT INTO t (a, b) VALUES (1, 'x')"
